@@ -86,6 +86,8 @@ def run(sc, external, env_extra=None):
 
     def evaluator(variables, context):
         state["n"] += 1
+        if sc.get("slow"):
+            time.sleep(float(sc["slow"]))        # an evaluation that takes longer than the plug-in's polling interval
         if sc.get("raiseAt") == state["n"]:
             raise ValueError("user evaluator failure")
         h.update(variables.tobytes()); h.update(context.realizations.tobytes())
@@ -101,7 +103,7 @@ def run(sc, external, env_extra=None):
         h.update(obj.tobytes())
         return EvaluatorResult(objectives=obj, constraints=con)
 
-    old_env = {k: os.environ.get(k) for k in ("PATH", "RV_KILL_AFTER", "RV_CHILD_ERROR_AFTER", "RV_CHILD_ERROR_EMPTY", "RV_TERM_AFTER_READ")}
+    old_env = {k: os.environ.get(k) for k in ("PATH", "RV_KILL_AFTER", "RV_EXIT_AFTER", "RV_CHILD_ERROR_AFTER", "RV_CHILD_ERROR_EMPTY", "RV_TERM_AFTER_READ")}
     os.environ["PATH"] = BIN + ":/venv/bin:" + old_env["PATH"]
     for k, v in (env_extra or {}).items():
         os.environ[k] = str(v)
@@ -151,6 +153,8 @@ def drive(sc):
     fault = sc["fault"]
     if fault == "kill" and sc.get("term"):
         env["RV_TERM_AFTER_READ"] = sc["after"]
+    elif fault == "kill" and sc.get("status"):
+        env["RV_EXIT_AFTER"] = sc["after"]
     elif fault == "kill":
         env["RV_KILL_AFTER"] = sc["after"]
     elif fault == "childerror":
@@ -181,7 +185,8 @@ def extra_scenarios(tier, seed):
         methods = ("slsqp",)
         pairs = [{"method": "slsqp", "con": True, "maxfun": 6, "start": [1.0, -1.0, 0.25]}, {"method": "cobyla", "mask": True, "maxfun": 8},
                  {"method": "differential_evolution", "maxfun": 10, "nanAt": 2, "minsucc": 0},
-                 {"method": "differential_evolution", "maxfun": 8, "integer": True}, {"method": "slsqp", "maxfun": 6, "rich": True}]
+                 {"method": "differential_evolution", "maxfun": 8, "integer": True}, {"method": "slsqp", "maxfun": 6, "rich": True},
+                 {"method": "nelder-mead", "maxfun": 3, "slow": 1.3}]
         kills = (-1, 1, 3, 4)
     else:
         kills, methods = (-1, 1, 2, 3, 4, 5, 6), ("slsqp", "cobyla", "differential_evolution")
@@ -192,10 +197,13 @@ def extra_scenarios(tier, seed):
                  {"method": "differential_evolution", "maxfun": 10, "nanAt": 2, "minsucc": 0},
                  {"method": "slsqp", "maxfun": 6, "start": [1.0, -1.0, 0.25]}, {"method": "cobyla", "maxfun": 6, "start": [0.0, 0.5, 1.0], "mask": True},
                  {"method": "differential_evolution", "maxfun": 8, "integer": True}, {"method": "slsqp", "maxfun": 6, "rich": True},
-                 {"method": "slsqp", "maxfun": 8, "rich": True, "con": True, "mask": True}]
+                 {"method": "slsqp", "maxfun": 8, "rich": True, "con": True, "mask": True},
+                 {"method": "nelder-mead", "maxfun": 4, "slow": 1.3}, {"method": "slsqp", "maxfun": 3, "slow": 2.2}]
     for m in methods:
         for k in kills:
             out.append({"kind": "fault", "fault": "kill", "after": k, "method": m, "maxfun": 12})
+    for k in ((1, 3) if tier == "quick" else (1, 2, 3, 4, 5, 6)):       # the process exits with a positive status, without a report
+        out.append({"kind": "fault", "fault": "kill", "status": True, "after": k, "method": "slsqp", "maxfun": 12})
     for k in ((3,) if tier == "quick" else (1, 2, 3, 4, 5)):
         out.append({"kind": "fault", "fault": "kill", "term": True, "after": k, "method": "slsqp", "maxfun": 12})
     for j in ((2,) if tier == "quick" else (1, 2, 3, 4)):
